@@ -143,7 +143,7 @@ def run(rep, ctx):
           r"mp::internal::SolverNLHandlerImpl::.*", r"mp::internal::NLReader::(Read|ReadLinearExpr)",
           r"mp::internal::NLReader::ObjHandler::.*",
           r"mp::BasicSolver::(objno_specified|is_objno_specified|multiobj|objno_used|GetObjNo|SetObjNo|notify_obj_added|notify_start_opts|notify_end_opts)",
-          r"mp::SolutionAdapter::.*", r"mp::WriteSolFile", r"mp::SolutionWriterImpl::Handle.*Solution",
+          r"mp::SolutionAdapter::.*", r"mp::WriteSolFile", r"mp::SolutionWriterImpl::[A-Za-z]*Solution",
           r"mp::ProblemFlattener::ConvertStandardItems"]
     jobs = [dict(unit=U, fn=fn, repo=repo, closure=1, closure_roots=r"(SolverNLHandlerImpl::OnHeader|NLProblemBuilder::(OnHeader|NeedObj|resulting_nobj|resulting_obj_index))$"),
             dict(unit="src/solver.cc", fn=fn, repo=repo),
@@ -398,11 +398,11 @@ def run(rep, ctx):
         raise AnalysisBroken("SolutionAdapter::objno_ is not initialised from a constructor parameter")
     pos = [i for i, p in enumerate(ctor.params) if p["declId"] == pn[0]["declId"]][0]
     for h in [f for f in funcs if f.qn in ("mp::SolutionWriterImpl::HandleSolution", "mp::SolutionWriterImpl::HandleFeasibleSolution")]:
-        cs = [x for x in h.walk() if x["k"] in ("CXXConstructExpr", "CXXTemporaryObjectExpr") and
-              x.get("callee", "").endswith("SolutionAdapter::SolutionAdapter") and len(kids(x)) > pos]
+        cs = [c_ for a_, c_, r_, o_ in reach_calls(F, h, lambda x: x["k"] in ("CXXConstructExpr", "CXXTemporaryObjectExpr") and
+                                                   x.get("callee", "").endswith("SolutionAdapter::SolutionAdapter") and len(kids(x)) > pos, depth=1)]
         if not cs:
             continue           # forwarding overload without an adapter of its own
-        ok = all(render(kids(x)[pos]) == "solver_.objno_used()" for x in cs)
+        ok = all(render(kids(x)[pos]).replace("this->", "") == "solver_.objno_used()" for x in cs)
         f2.check(ok, "handler|%s" % h.name, short_loc(h.loc),
                  "%s passes solver_.objno_used() as the adapter's objno" % h.name)
 
